@@ -2,7 +2,7 @@
 // C09 - concurrent_queue / concurrent_bounded_queue are linearizable FIFO queues (DESIGN.md section 7, C09).
 // Parameters (-p):  prog="P11,P12|P21,G|G,G"   thread programs separated by '|', ops separated by ','
 //     P<v> push (blocking push for the bounded queue)   T<v> try_push   G try_pop   Q blocking pop
-//     A    abort (repeated until every other thread returned)           C<n> set_capacity(n)
+//     A    abort (repeated until every other thread returned)   a  one abort() call, issued when every other thread is blocked or done           C<n> set_capacity(n)
 //   bounded=1 cap=N big=1 (136-byte elements: one per page)  pre=N (push+pop N items first: advances tickets/pages)
 //   keep=N (N items in the queue when the window opens)  throwat=K (K-th element copy inside the window throws)
 #include <oneapi/tbb/concurrent_queue.h>
@@ -98,7 +98,7 @@ static std::vector<std::vector<Step>> parse(const char* s) {
         if (*p == '|') { r.emplace_back(); p++; continue; } if (*p == ',') { p++; continue; }
         char c = *p++; long a = strtol(p, (char**)&p, 10);
         switch (c) { case 'P': r.back().push_back({K_PUSH, a}); break; case 'T': r.back().push_back({K_TRYPUSH, a}); break; case 'G': r.back().push_back({K_TRYPOP, 0}); break;
-            case 'Q': r.back().push_back({K_POP, 0}); break; case 'A': r.back().push_back({K_ABORT, 0}); break; case 'C': r.back().push_back({K_SETCAP, a}); break; default: fprintf(stderr, "bad prog\n"); exit(2); } }
+            case 'Q': r.back().push_back({K_POP, 0}); break; case 'A': r.back().push_back({K_ABORT, 0}); break; case 'a': r.back().push_back({K_ABORT, 1}); break; case 'C': r.back().push_back({K_SETCAP, a}); break; default: fprintf(stderr, "bad prog\n"); exit(2); } }
     return r; }
 
 template <class Q, class E, bool BOUNDED> struct Run {
@@ -110,7 +110,8 @@ template <class Q, class E, bool BOUNDED> struct Run {
         case K_TRYPUSH: try { return q.try_push(E((int)s.arg)) ? 1 : 0; } catch (Thrown&) { return R_THREW; } catch (std::bad_alloc&) { return R_THREW; }
         case K_TRYPOP: return q.try_pop(e) ? e.v : R_EMPTY;
         case K_POP: try { q.pop(e); return e.v; } catch (tbb::user_abort&) { return R_ABORTED; }
-        case K_ABORT: aborter = true; q.abort(); return 0;
+        case K_ABORT: if (s.arg == 1) { for (int i = 0; i < 2000 && !vf_others_idle(); i++) vf_yield(); q.abort(); return 0; }   // 'a': ONE abort() call, issued once every other thread is blocked or done
+            aborter = true; q.abort(); return 0;
         case K_SETCAP: q.set_capacity(s.arg); return 0; }
         return 0; }
     template <bool B = BOUNDED> typename std::enable_if<!B, long>::type do_op(Step s, int me, bool& aborter) {
@@ -121,8 +122,9 @@ template <class Q, class E, bool BOUNDED> struct Run {
         default: vf_fail("operation not available on concurrent_queue"); }
         return 0; }
     void thread_body(const std::vector<Step>& prog, int me) {
-        for (auto s : prog) { bool aborter = false; int i = log.begin(s.kind, s.arg); long r = do_op(s, me, aborter); log.end(i, r);
-            if (aborter) { finished++; while (finished < nthreads) { do_abort(); vf_yield(); } finished--; } }
+        for (auto s : prog) { bool aborter = false; int i = log.begin(s.kind, s.arg); long r = do_op(s, me, aborter);
+            if (aborter) { finished++; while (finished < nthreads) { do_abort(); vf_yield(); } finished--; }   // 'A' keeps aborting until everybody else returned: the logged interval covers all its abort() calls
+            log.end(i, r); }
         finished++; }
     void go() {
         auto progs = parse(vf_param("prog", "P11,P12|P21,G|G,G")); nthreads = (int)progs.size();
@@ -141,7 +143,7 @@ template <class Q, class E, bool BOUNDED> struct Run {
         // drain sequentially; the drain ops are part of the history
         for (;;) { int i = log.begin(K_TRYPOP, 0); long r = do_op({K_TRYPOP, 0}, 0, aborter); log.end(i, r); if (r == R_EMPTY) break; }
         // aborted calls must overlap an abort
-        for (auto& o : log.ops) if (o.res == R_ABORTED) { bool ok = false; for (auto& a : log.ops) if (a.kind == K_ABORT && a.t0 < o.t1) ok = true; if (!ok) vf_fail("call returned user_abort although no abort() had started: %s", log.str(NAMES).c_str()); }
+        for (auto& o : log.ops) if (o.res == R_ABORTED) { bool ok = false; for (auto& a : log.ops) if (a.kind == K_ABORT && a.t0 < o.t1 && (!a.done || a.t1 > o.t0)) ok = true; /* an abort() that had returned before the call began cannot be its cause */ if (!ok) vf_fail("call returned user_abort although no abort() overlapped it: %s", log.str(NAMES).c_str()); }
         if (!linearizable(log.ops, m)) {
             if (BOUNDED && failed_push(log.ops) && rlin(log.ops, g_rinit, [](const RModel&) { return true; }))
                 vf_fail("history is linearizable only if the invalid entry left by a failed push counts against the capacity until a pop passes over it: %s", log.str(NAMES).c_str());
